@@ -12,7 +12,9 @@ import fuzzylite as fl
 PID = "C12"
 MODULES = ["FlVerif.Props.C12"]
 NAMESPACE = "C12"
-TIE_A = ["Setter.value", "code:fuzzylite.variable.OutputVariable.defuzzify"]
+TIE_A = ["Setter.value", "code:fuzzylite.variable.OutputVariable.defuzzify", "code:fuzzylite.variable.Variable.value.fset",
+         "code:fuzzylite.variable.Variable.drange.fget", "code:fuzzylite.variable.Variable.range.fget",
+         "code:fuzzylite.variable.Variable.range.fset"]
 RULE = ("operation sequences {defuzzify(batch of injected defuzzified values through a stub defuzzifier returning a 1-D "
         "array / 0-d array / numpy scalar / Python float), defuzzify(raises), clear, enable/disable} x 16 settings "
         "(lock-previous x default in {NaN, in range, out of range} x lock-range); exhaustive: every value sequence of "
